@@ -375,11 +375,10 @@ pub fn c30(args: &Args) -> i32 {
                 let st_whole = whole.all_state();
                 let seq = c30_setup();
                 let mut kg = "A".to_string();
-                for x in p {
-                    let line = alpha[*x].1;
-                    if line.trim().is_empty() || alpha[*x].0.starts_with("comment") {
-                        continue;
-                    }
+                // the statements of the program under the documented continuation rule (an indented line
+                // continues the previous one; comment lines are dropped first)
+                for line in logical_lines(&program_text(p, &alpha)) {
+                    let line = line.as_str();
                     let r1 = seq.run(None, Some(&kg), line, None);
                     if let Ok(q) = &r1 {
                         if let Some(k) = &q.switched_kg {
@@ -452,6 +451,8 @@ pub fn logical_lines(text: &str) -> Vec<String> {
     let mut out: Vec<String> = vec![];
     for line in text.lines() {
         let t = line.trim();
+        // line comments are dropped before continuation lines are joined; a block comment is ordinary text
+        // at this stage (an indented line after it continues it) and is removed from the joined line later
         if t.starts_with('%') || t.starts_with("//") {
             continue;
         }
